@@ -20,7 +20,11 @@ Lean re-checks the decidable obligation `check prog = linC|antiC|linR` on each; 
      falsified entries as negative controls,
   7. translator fidelity: translated programs executed equation by equation with the real JAX primitives
      (`jaxpr_table.ir_eval`) against the operator they were translated from - inlining, constant folding, unrolling of
-     scan / while / cond, pmap boundaries are exercised, not trusted.
+     scan / while / cond, pmap boundaries are exercised, not trusted,
+  8. family tie: for the structural primitives (add, sub, neg, slice, pad, concatenate, reduce_sum, cumsum, rev,
+     broadcast_in_dim, transpose, reshape, squeeze, select_n, dynamic_slice, ...) the JAX primitive instance equals,
+     exactly on dyadic operands, the Lean sparse-matrix map `applyDescG rows` that is PROVED linear
+     (Proofs/JaxprArray.lean), with `rows` computed from the static parameters (harness/jaxpr_family.py).
 `search()` looks for a concrete failing (x, y, a, b) on the real operator of a broken obligation.
 """
 
@@ -737,6 +741,8 @@ def _fidelity(ctx):
 
 TABLE_INSITU_QUICK = 180
 TABLE_INSITU_THOROUGH = 2000
+FAMILY_QUICK = 250
+FAMILY_THOROUGH = 1200
 
 
 def _table_validation(ctx):
@@ -816,6 +822,44 @@ def _table_validation(ctx):
     }
 
 
+def _family_tie(ctx, model):
+    """8. JAX primitive instance == Lean `applyDescG rows` (the sparse-matrix family PROVED linear in
+    Proofs/JaxprArray.lean), rows built from the static parameters by harness/jaxpr_family.py; exact comparison on
+    dyadic operands.  Coverage instances + the instances of the operator programs of this run."""
+    import jaxpr_family as fam
+    import jaxpr_table as tb
+
+    rng = ctx.rng
+    seen = set()
+    todo = [("coverage", lab, i) for lab, i in tb.coverage_instances()[0] if i["cls"] == ir.LINALL]
+    insitu = [i for i in _STATE.get("instances", {}).values() if i["cls"] == ir.LINALL]
+    order = rng.permutation(len(insitu)).tolist() if insitu else []
+    todo += [("insitu", insitu[k].get("user", "?"), insitu[k]) for k in order]
+    limit = FAMILY_THOROUGH if ctx.thorough else FAMILY_QUICK
+    done = 0
+    for source, label, inst in todo:
+        sig = tb.signature(inst)
+        if sig in seen:
+            continue
+        seen.add(sig)
+        if source == "insitu" and done >= limit:
+            break
+        st, d = fam.compare(inst, rng, model)
+        name = inst["name"].split("#")[0]
+        if st == "ok":
+            ctx.count(f"family-tie-ok:{name}")
+            if source == "insitu":
+                done += 1
+        else:
+            ctx.count(f"family-tie-{st}" + (f":{name}" if st.startswith("unsupported") else ""))
+        ctx.case({"family_tie": inst["name"], "source": source, "from": label, "result": st}, ("fam", repr(sig)) if st == "ok" else None, sample_every=31)
+        if st == "mismatch":
+            ctx.disagree("jaxpr.family.tie", {**tb.describe(inst), "from": label}, d, "applyDescG rows", note="the JAX primitive and the sparse-row descriptor built from its static parameters differ (descriptor builder or primitive semantics)")
+    ctx.extra["family_tie"] = {"instances_equal_to_proved_family": sum(v for k, v in ctx.hist.items() if k.startswith("family-tie-ok:")),
+                               "primitives": sorted(k.split(":", 1)[1] for k in ctx.hist if k.startswith("family-tie-ok:")),
+                               "unsupported": {k.split(":", 2)[-1]: v for k, v in ctx.hist.items() if k.startswith("family-tie-unsupported")}}
+
+
 def correspond(ctx, model):
     common.setup_scico()
     import warnings
@@ -827,7 +871,7 @@ def correspond(ctx, model):
     timing = ctx.extra.setdefault("timing_s", {})
     for name, fn in (("corpus", lambda: _corpus(ctx, oracle)), ("mirror_vs_lean", lambda: _mirror_vs_lean(ctx, model)),
                      ("probes", lambda: _probes(ctx, ctx.rng)), ("synthetic_scalar", lambda: _synthetic_scalar(ctx, model)),
-                     ("synthetic_jax", lambda: _synthetic_jax(ctx, model)), ("table_validation", lambda: _table_validation(ctx)), ("fidelity", lambda: _fidelity(ctx))):
+                     ("synthetic_jax", lambda: _synthetic_jax(ctx, model)), ("table_validation", lambda: _table_validation(ctx)), ("fidelity", lambda: _fidelity(ctx)), ("family_tie", lambda: _family_tie(ctx, model))):
         t = time.time()
         fn()
         timing[name] = round(time.time() - t, 1)
